@@ -345,5 +345,8 @@ def run(ctx: Ctx) -> None:
     ctx.attempt(rule_r2, ctx)
     ctx.attempt(rule_r3, ctx)
     ctx.attempt(rule_r4, ctx)
+    from . import c11text
+
+    c11text.run(ctx)
     ctx.assume("major/minor versions are non-negative integers (C05.R3); the minors of a compared pair differ (asserted by the grouping)")
     ctx.analysed["modules"] = ["_namespace"]
